@@ -12,6 +12,7 @@ import io
 ALPHA = 'abcdefghijklmnopqrstuvwxyzABCDEFGHIJKLMNOPQRSTUVWXYZ0123456789'
 LATIN = 'éèüÿñçÆøß¡¿'
 PUNCT = ' _-.;:!?#$%&()*+/<=>@[]^`{|}~\'",'
+ODD = '\x0b\x0c\x1c\x1d\x1e\x85\xa0'        # not line breaks for file iteration or csv, but for str.splitlines()
 NAME_CHARS = 'abcdefghijklmnopqrstuvwxyz0123456789_'
 
 
@@ -44,6 +45,8 @@ def _word(rng, lo=1, hi=6, fancy=0.2):
     chars = ALPHA
     if rng.random() < fancy:
         chars = ALPHA + LATIN + PUNCT
+        if rng.random() < 0.15:
+            chars = chars + ODD * 3
     return ''.join(rng.choice(chars) for _ in range(k))
 
 
@@ -58,7 +61,7 @@ def _name(rng, used):
 
 
 def gen_column(rng, n, label_vals, kind=None):
-    kind = kind or rng.choice(['lowcard', 'lowcard', 'lowcard', 'midcard', 'id', 'constant', 'sparse', 'numeric', 'noisy-label', 'balanced-binary', 'multi'])
+    kind = kind or rng.choice(['lowcard', 'lowcard', 'lowcard', 'midcard', 'id', 'constant', 'sparse', 'numeric', 'noisy-label', 'balanced-binary', 'multi', 'numeric-spellings'])
     if kind == 'multi':
         toks = [_word(rng, 1, 3, 0) for _ in range(rng.randrange(2, 6))]
         sep = rng.choice(['-', ','])
@@ -73,6 +76,9 @@ def gen_column(rng, n, label_vals, kind=None):
         vals = [_word(rng) for _ in range(rng.randrange(1, 5))]
         p = rng.choice([0.3, 0.7, 0.95])
         return [miss if rng.random() < p else rng.choice(vals) for _ in range(n)], kind
+    if kind == 'numeric-spellings':
+        vals = ['1', '1.0', '1.00', '01', '1e0', '2', '2.0', '0.5', '.5', '10', '1E1']
+        return [rng.choice(vals) for _ in range(n)], 'numeric'
     if kind == 'numeric':
         vals = [str(rng.randrange(0, 30)) for _ in range(rng.randrange(2, 8))] + ['1', '11', '111', '2']
         return [rng.choice(vals) for _ in range(n)], kind
